@@ -1,11 +1,11 @@
-\* exhaustive design check (thorough): 3 variables, 5 blocks
+\* exhaustive design check (thorough): 3 variables, transactions writing <= 2 variables, 4 blocks
 SPECIFICATION Spec
 CONSTANTS
   Vars <- SV3
   Ghost = "w"
   Vals <- SVals
   MaxBatch = 2
-  MaxBlocks = 5
+  MaxBlocks = 4
   KeyLists <- KL3
   FromProven = TRUE
 VIEW view
